@@ -144,6 +144,9 @@ class MarkovChain(ABC):
         # get the sorting indices for the probabilities
         probs = self.get_probabilities(burn=burn)
         if samples is not None:
+            # (a plain int: a count held in a narrow or unsigned numpy integer wraps
+            # around in the arithmetic below)
+            samples = int(samples)
             thin = max(probs.size // samples, 1)
 
         sample = self.get_sample(burn=burn, thin=thin)
